@@ -667,7 +667,7 @@ def behaviour_compare(ws, todo, allcases, by_name, xl, subdir, max_mism=200):
 
     def do_shard(k):
         sh = shards[k]
-        src = [CASE_HEADER.replace('Surface.', 'Surface Run.')]
+        src = [CASE_HEADER.replace('Surface Gen.', 'Surface Gen Run.')]
         for d in sh:
             src.append('Definition d_%s : decl :=\n  %s.' % (d['name'], decls.coq_decl(d)))
             src.append('Definition p_%s : program :=\n  %s.' % (d['name'], coq_program(d['name'], xl[d['name']])))
